@@ -6,6 +6,7 @@
 //! same script.
 
 mod conformance;
+mod freerun;
 
 use std::{
     io::{self, BufRead, Cursor, Read, Write},
@@ -747,5 +748,6 @@ fn main() {
         });
         let _ = n_plain;
         conformance::run(ctx);
+        freerun::run(ctx);
     });
 }
